@@ -258,3 +258,30 @@ Proof.
     rewrite eval_rename. apply eval_expr_ext. intros y Hy. apply IH.
     intros ->. apply (Hfr x (Derived h e)); [apply assoc_In; exact Ea | exact Hy].
 Qed.
+
+(* the removed set does not depend on where the attributes sit in the table: two tables with the same entries in any
+   two orders (dependents before or after their inputs) lose exactly the same entries *)
+Lemma remove_absent : forall n c (l : list (cid * comp)), ~ In c (keys l) -> remove_fuel n c l = l.
+Proof.
+  intros n c l H. destruct n; simpl; [reflexivity|].
+  destruct (memz c (keys l)) eqn:E; [apply memz_In in E; contradiction | reflexivity].
+Qed.
+
+Lemma remove_order_independent : forall c l1 l2, NoDup (keys l1) -> NoDup (keys l2) -> (forall e, In e l1 <-> In e l2) ->
+  forall x k, In (x, k) (remove_fuel (length l1) c l1) <-> In (x, k) (remove_fuel (length l2) c l2).
+Proof.
+  intros c l1 l2 N1 N2 HE x k.
+  assert (HK : forall y, In y (keys l1) <-> In y (keys l2)).
+  { intros y. split; intros H; apply In_keys_ex in H; destruct H as [v H]; apply HE in H; eapply In_keys; exact H. }
+  destruct (in_dec Z.eq_dec c (keys l1)) as [Hc|Hc].
+  - destruct (remove_closure c l1 N1 Hc) as [[f1 F1] R1]. destruct (remove_closure c l2 N2 (proj1 (HK c) Hc)) as [[f2 F2] R2].
+    cbv zeta in *.
+    assert (D : dependent l1 c x <-> dependent l2 c x).
+    { split; apply dependent_mono; intros e He; apply HE; exact He. }
+    split; intros H.
+    + assert (H1 : In (x, k) l1) by (rewrite F1 in H; eapply sub_In; exact H).
+      apply (R2 x k (proj1 (HE _) H1)). intros Hd. apply (proj1 (R1 x k H1) H). apply D. exact Hd.
+    + assert (H2 : In (x, k) l2) by (rewrite F2 in H; eapply sub_In; exact H).
+      apply (R1 x k (proj2 (HE _) H2)). intros Hd. apply (proj1 (R2 x k H2) H). apply D. exact Hd.
+  - rewrite (remove_absent _ c l1 Hc), (remove_absent _ c l2 (fun H => Hc (proj2 (HK c) H))). apply HE.
+Qed.
